@@ -1,6 +1,13 @@
-/* C10 ghost vocabulary of the compile-skeleton contract. */
+/* C10 ghost vocabulary of the compile-skeleton contract: the phase of the generated function the emitter is in, and for
+ * every label the phase in which it is placed and the phase in which the first branch to it is emitted. */
 #ifndef VERIF_SKELETON_H
 #define VERIF_SKELETON_H
 #define SK_LABELS 40     /* ORC_N_LABELS */
-extern int g_t, g_label_pos[SK_LABELS], g_first_branch[SK_LABELS];
+#define PH_NONE 0        /* nothing emitted yet */
+#define PH_BODY 1        /* after the prologue */
+#define PH_FLUSH 2       /* after set_mxcsr: flush-to-zero mode on */
+#define PH_RESTORED 3    /* after restore_mxcsr */
+#define PH_EMMS 4        /* after emms */
+#define PH_DONE 5        /* after the epilogue */
+extern int g_phase, g_label_phase[SK_LABELS], g_branch_phase[SK_LABELS];
 #endif
